@@ -124,6 +124,23 @@ var c08NearDates = []string{"2021/00/10", "2021/01/00", "2021/00/00", "2021/13/0
 
 var c08DateFormats = []string{"2006/01/02", "2006-01-02", "", " ", "%Y-%m-%d", "02.01.2006", "Monday", "2006", "15:04", "\x01", "2006/01/02/2006", strings.Repeat("2006", 100)}
 
+// c08Pos: where in the line something is inserted: anywhere, or at a place that means something to the tokenizer (in front
+// of the value, behind it, in front of the name).
+func c08Pos(t *rapid.T, line string) int {
+	body := strings.TrimRight(line, "\r\n")
+	switch rapid.IntRange(0, 5).Draw(t, "poskind") {
+	case 0: // start of the value (behind the last blank)
+		if i := strings.LastIndexAny(body, " \t"); i >= 0 {
+			return i + 1
+		}
+	case 1: // end of the value
+		return len(body)
+	case 2: // start of the name
+		return len(body) - len(strings.TrimLeft(body, " \t-"))
+	}
+	return rapid.IntRange(0, len(line)).Draw(t, "pos")
+}
+
 func c08MutateLines(t *rapid.T, text string, isLog bool, muts *[]string) []byte {
 	lines := strings.SplitAfter(text, "\n")
 	// many cases keep a file intact (so that the command gets past parsing and meets the unusual values, sizes and
@@ -161,17 +178,17 @@ func c08MutateLines(t *rapid.T, text string, isLog bool, muts *[]string) []byte 
 			name = "stray-char"
 			k := pick()
 			ch := []string{":", "-", "\"", "#", "\t", " ", "::", "- -", "\"\""}[rapid.IntRange(0, 8).Draw(t, "ch")]
-			p := rapid.IntRange(0, len(lines[k])).Draw(t, "pos")
+			p := c08Pos(t, lines[k])
 			lines[k] = lines[k][:p] + ch + lines[k][p:]
 		case 4:
 			name = "invalid-utf8"
 			k := pick()
-			p := rapid.IntRange(0, len(lines[k])).Draw(t, "pos")
-			lines[k] = lines[k][:p] + []string{"\xff", "\xc3", "\xed\xa0\x80", "\xf8\x88\x80\x80\x80"}[rapid.IntRange(0, 3).Draw(t, "bad")] + lines[k][p:]
+			p := c08Pos(t, lines[k])
+			lines[k] = lines[k][:p] + []string{"\xff", "\xc3", "\xed\xa0\x80", "\xf8\x88\x80\x80\x80", strings.Repeat("\x80", 97), strings.Repeat("\xbf", 130), strings.Repeat("\x80", 300), strings.Repeat("\x9f", 5000), strings.Repeat("\xe4\xb8", 70), strings.Repeat("\xf0\x9f", 90)}[rapid.IntRange(0, 9).Draw(t, "bad")] + lines[k][p:]
 		case 5:
 			name = "nul"
 			k := pick()
-			p := rapid.IntRange(0, len(lines[k])).Draw(t, "pos")
+			p := c08Pos(t, lines[k])
 			lines[k] = lines[k][:p] + "\x00" + lines[k][p:]
 		case 6:
 			name = "bom"
